@@ -40,6 +40,7 @@ type sctx struct {
 	override   string // the name the next item has to take (redefinition)
 	capture    bool   // remember the next generated name
 	captured   string
+	pkgs       []string // user packages defined so far
 	fl         map[string]*flInfo
 	last       string // the most derived flavor of the session's chain
 	placed     string // feature placed by a helper on the item being built
@@ -159,6 +160,11 @@ func (s *sctx) varItem() Item {
 	kind, val := cleanVarValue(r)
 	it := Item{Kind: "var", Name: name}
 	switch {
+	case s.want("var-closure"):
+		// a lambda that closes over a let binding
+		val, kind = fmt.Sprintf("(let ((n %d) (tag \"c\")) (lambda (x) (list tag (+ x n))))", r.IntN(20)), "lambda"
+		it.Feat = "var-closure"
+		it.Probes = append(it.Probes, fmt.Sprintf("(funcall %s 1)", name), fmt.Sprintf("(funcall %s -4)", name))
 	case r.IntN(12) == 0:
 		// a symbol as a value (snapshot has to quote it)
 		val, kind = "'"+fw.Pick(r, symNames), "symbol"
@@ -252,8 +258,14 @@ func (s *sctx) funItem() Item {
 	for _, p := range fd.Probes {
 		it.Probes = append(it.Probes, fmt.Sprintf("(%s %s)", name, p))
 	}
-	it.Probes = append(it.Probes, fmt.Sprintf("(documentation '%s 'function)", name))
+	it.Probes = append(it.Probes, fmt.Sprintf("(documentation '%s 'function)", name),
+		fmt.Sprintf("(with-output-to-string (s) (describe '%s s))", name))
 	switch {
+	case s.want("fun-closure"):
+		// a function defined inside a let keeps the binding alive
+		it.Feat = "fun-closure"
+		it.Forms = []string{fmt.Sprintf("(let ((counter %d)) (defun %s (p0) (setq counter (+ counter p0)) counter))", r.IntN(9), name)}
+		it.Probes = []string{fmt.Sprintf("(list (%s 1) (%s 2))", name, name)}
 	case s.want("undefined-ref"):
 		// a function whose callee is not defined (yet) when the snapshot is taken
 		it.Feat = "undefined-ref"
@@ -284,6 +296,7 @@ func (s *sctx) macroItem() Item {
 	for _, p := range fd.Probes {
 		it.Probes = append(it.Probes, fmt.Sprintf("(%s %s)", name, p))
 	}
+	it.Probes = append(it.Probes, fmt.Sprintf("(with-output-to-string (s) (describe '%s s))", name))
 	return it
 }
 
@@ -564,16 +577,37 @@ func (s *sctx) flavorItem(withInstance bool, role string) Item {
 		x := "inherits:" + fmt.Sprint(info.depth)
 		it.Info = x
 	}
+	it.Probes = append(it.Probes, fmt.Sprintf("(with-output-to-string (s) (describe-flavor '%s s))", name))
 	if s.want("flavor-method") {
+		// a primary method with documentation and any of a :before daemon, an
+		// :after daemon and a whopper; the daemons leave their mark in a variable
 		it.Feat = "flavor-method"
 		msg := ":" + fw.Pick(r, []string{"total", "grow", "frob"})
 		g := newCG(r)
 		g.ints = []string{"p0"}
-		it.Forms = append(it.Forms, fmt.Sprintf("(defmethod (%s %s) (p0) %s)", name, msg, g.Result(2)))
+		mdoc := ""
 		if r.IntN(2) == 0 {
-			it.Forms = append(it.Forms, fmt.Sprintf("(defmethod (%s :before %s) (p0) (setq %s (list 'before p0)))", name, msg, vars[0].name))
+			mdoc = litString(fw.Pick(r, shortDocs)) + " "
 		}
-		it.Probes = append(it.Probes, fmt.Sprintf("(let ((i %s)) (list (send i %s 3) (slot-value i '%s)))", mk, msg, vars[0].name))
+		v0 := vars[0].name
+		it.Forms = append(it.Forms, fmt.Sprintf("(defmethod (%s %s) (p0) %s(setq %s (list 'primary %s)) %s)", name, msg, mdoc, v0, v0, g.Result(2)))
+		if r.IntN(2) == 0 {
+			it.Forms = append(it.Forms, fmt.Sprintf("(defmethod (%s :before %s) (p0) (setq %s (list 'before p0)))", name, msg, v0))
+		}
+		if r.IntN(2) == 0 {
+			it.Forms = append(it.Forms, fmt.Sprintf("(defmethod (%s :after %s) (p0) (setq %s (list 'after %s)))", name, msg, v0, v0))
+		}
+		if r.IntN(2) == 0 {
+			it.Forms = append(it.Forms, fmt.Sprintf("(defwhopper (%s %s) (p0) (list 'whopper (continue-whopper (+ p0 1))))", name, msg))
+		}
+		if r.IntN(3) == 0 {
+			// a second message with a method of its own
+			it.Forms = append(it.Forms, fmt.Sprintf("(defmethod (%s :other) (p0 &optional (p1 2)) (list p0 p1 %s))", name, v0))
+			it.Probes = append(it.Probes, fmt.Sprintf("(send %s :other 1)", mk))
+		}
+		it.Probes = append(it.Probes,
+			fmt.Sprintf("(let ((i %s)) (list (send i %s 3) (slot-value i '%s)))", mk, msg, v0),
+			fmt.Sprintf("(with-output-to-string (s) (describe-method '%s %s s))", name, msg))
 	}
 	if withInstance {
 		iv := "*" + s.name("inst-") + "*"
@@ -641,8 +675,8 @@ func (s *sctx) flavorInstanceItem() Item {
 // ----- classes
 
 type cslot struct {
-	name, initarg, initform, reader, writer, accessor, typ, doc string
-	classAlloc                                                  bool
+	name, initarg, initarg2, initform, reader, writer, accessor, typ, doc string
+	classAlloc                                                            bool
 }
 
 func (s *sctx) classItem(parent *Item) Item {
@@ -656,6 +690,9 @@ func (s *sctx) classItem(parent *Item) Item {
 		sl := cslot{name: fmt.Sprintf("%s%d", fw.Pick(r, []string{"slot", "w", "title", "n"}), s.n*10+i)}
 		if r.IntN(3) != 0 {
 			sl.initarg = ":" + sl.name
+			if r.IntN(5) == 0 {
+				sl.initarg2 = ":alt-" + sl.name
+			}
 		}
 		switch r.IntN(5) {
 		case 0:
@@ -698,6 +735,9 @@ func (s *sctx) classItem(parent *Item) Item {
 		p := []string{sl.name}
 		if sl.initarg != "" {
 			p = append(p, ":initarg", sl.initarg)
+		}
+		if sl.initarg2 != "" {
+			p = append(p, ":initarg", sl.initarg2)
 		}
 		if sl.initform != "" {
 			p = append(p, ":initform", sl.initform)
@@ -761,6 +801,13 @@ func (s *sctx) classItem(parent *Item) Item {
 		fmt.Sprintf("(let ((i %s)) %s)", mk, slotProbe("i")),
 		fmt.Sprintf("(let ((i (make-instance '%s))) %s)", name, slotProbe("i")),
 		fmt.Sprintf("(mapcar 'class-name (class-supers (find-class '%s)))", name),
+		fmt.Sprintf("(class-precedence (find-class '%s))", name),
+		fmt.Sprintf("(with-output-to-string (s) (describe '%s s))", name),
+	}
+	for _, sl := range slots {
+		if sl.initarg2 != "" {
+			it.Probes = append(it.Probes, fmt.Sprintf("(slot-value (make-instance '%s %s 77) '%s)", name, sl.initarg2, sl.name))
+		}
 	}
 	if doc != "" {
 		it.Probes = append(it.Probes, fmt.Sprintf("(documentation '%s 'type)", name))
@@ -911,8 +958,9 @@ func (s *sctx) genericItem() Item {
 			it.Redef++
 		}
 	}
-	// one qualified method on the first primary's specializers
-	if 0 < len(primaries) && r.IntN(3) == 0 && primaries[0][len(primaries[0])-1] != -1 {
+	// qualified methods on the first primary's specializers: any of :before,
+	// :after and (at most one, C10 knows a hang with two) :around
+	if 0 < len(primaries) && r.IntN(2) == 0 && primaries[0][len(primaries[0])-1] != -1 {
 		var sp []string
 		for i, t := range primaries[0] {
 			sp = append(sp, fmt.Sprintf("(%s %s)", params[i], specTypes[t].typ))
@@ -921,13 +969,15 @@ func (s *sctx) genericItem() Item {
 		if opt {
 			mll += " &optional (o0 1)"
 		}
-		switch r.IntN(3) {
-		case 0:
-			it.Forms = append(it.Forms, fmt.Sprintf("(defmethod %s :around (%s) (list 'around (call-next-method)))", name, mll))
-		case 1:
+		pick := 1 + r.IntN(7) // a non-empty subset of the three
+		if pick&1 != 0 {
 			it.Forms = append(it.Forms, fmt.Sprintf("(defmethod %s :before (%s) (setq %s (cons 'before %s)))", name, mll, tr, tr))
-		default:
+		}
+		if pick&2 != 0 {
 			it.Forms = append(it.Forms, fmt.Sprintf("(defmethod %s :after (%s) (setq %s (cons (list 'after %s) %s)))", name, mll, tr, params[0], tr))
+		}
+		if pick&4 != 0 {
+			it.Forms = append(it.Forms, fmt.Sprintf("(defmethod %s :around (%s) (setq %s (cons 'around %s)) (list 'around (call-next-method)))", name, mll, tr, tr))
 		}
 	}
 	// probes: every primary once, plus random tuples (some have no applicable method)
@@ -958,6 +1008,7 @@ func (s *sctx) genericItem() Item {
 	if doc != "" {
 		it.Probes = append(it.Probes, fmt.Sprintf("(documentation '%s 'function)", name))
 	}
+	it.Probes = append(it.Probes, fmt.Sprintf("(with-output-to-string (s) (describe '%s s))", name))
 	it.Obj = name // funcform
 	return it
 }
@@ -968,7 +1019,17 @@ func (s *sctx) packageItem(content string) Item {
 	r := s.r
 	name := s.name("pk-")
 	it := Item{Kind: "package", Name: name, Info: name}
-	opts := []string{`(:use "cl")`}
+	use := `(:use "cl"`
+	if 0 < len(s.pkgs) && (s.exports || content == "package-uses") {
+		// a use graph among the user packages (in sessions in the avoid set:
+		// snapshot writes the packages by name, not the used ones first)
+		r.Shuffle(len(s.pkgs), func(i, j int) { s.pkgs[i], s.pkgs[j] = s.pkgs[j], s.pkgs[i] })
+		for _, u := range s.pkgs[:1+r.IntN(min(2, len(s.pkgs)))] {
+			use += " " + litString(u)
+			it.Pre = append(it.Pre, s.defs[u]...)
+		}
+	}
+	opts := []string{use + ")"}
 	if r.IntN(2) == 0 {
 		var nn []string
 		for i, n := 0, 1+r.IntN(2); i < n; i++ {
@@ -992,6 +1053,11 @@ func (s *sctx) packageItem(content string) Item {
 	def := fmt.Sprintf("(defpackage '%s %s)", name, strings.Join(opts, " "))
 	it.Forms = []string{def}
 	it.Obj = fmt.Sprintf("(find-package '%s)", name)
+	it.Probes = append(it.Probes,
+		fmt.Sprintf("(mapcar 'package-name (package-use-list (find-package '%s)))", name),
+		fmt.Sprintf("(with-output-to-string (s) (describe (find-package '%s) s))", name))
+	s.defs[name] = append(append([]string{}, it.Pre...), def)
+	s.pkgs = append(s.pkgs, name)
 	switch content {
 	case "package-var":
 		_, val := cleanVarValue(r)
@@ -1076,7 +1142,7 @@ func buildDefCase(r *rand.Rand, kind, feat string) Case {
 var sessionFeats = []string{
 	"class", "flavor-method", "flavor-parent", "multi-flavor", "undefined-ref", "send-error-before-snapshot",
 	"var-fill-pointer", "var-array-attrs", "var-long-float", "flavor-default-unquoted",
-	"package-var", "package-fun", "package-export", "fun-backquote", "macro-backquote", "fun-doc-wraps", "doc-wraps",
+	"package-var", "package-fun", "package-export", "package-uses", "var-closure", "fun-closure", "fun-backquote", "macro-backquote", "fun-doc-wraps", "doc-wraps",
 }
 
 func genSessionCase(r *rand.Rand) Case {
@@ -1149,6 +1215,15 @@ func buildSessionCase(r *rand.Rand, feat string, n int) Case {
 			it.Forms = append(it.Forms, fmt.Sprintf("(ignore-errors (send %s :no-such-message 1))", iv))
 		case strings.HasPrefix(feat, "package-"):
 			s.used = true
+			if feat == "package-uses" {
+				// the used package sorts after its user
+				s.override = "pk-zz-used"
+				c.Items = append(c.Items, s.packageItem(""))
+				s.override = "pk-aa-user"
+				it = s.packageItem(feat)
+				it.Feat = feat
+				break
+			}
 			it = s.packageItem(feat)
 			it.Feat = feat
 		case feat == "flavor-parent":
